@@ -105,7 +105,7 @@ def main():
                 want = cplx(vv["chi"]) - chi0
                 got = cplx(vv["value"])
                 c.evaluations += 1
-                if abs(want - got) > 1e-12 * (abs(want) + abs(chi0) + abs(cplx(vv["chi"]))) + 1e-14:
+                if not (abs(want - got) <= 1e-12 * (abs(want) + abs(chi0) + abs(cplx(vv["chi"]))) + 1e-14):
                     c.violation("%s quad %s at %s: value()=%s but chi-chi0=%s" % (r["id"], o["q"], vv["t"], got, want),
                                 {"model": [s for s in scen if s["id"] == r["id"]][0], "quad": o["q"], "t": vv["t"]}, cls="vertex:formula")
     c.sample({"model": ms[1]["id"], "build": ms[1]["build"], "quad": [0, 1, 1, 0], "windows": [0, 1, 2]})
